@@ -23,6 +23,9 @@ type family struct {
 
 var families = map[string]*family{}
 
+// sub-generators selectable as "family:sub"
+var subGens = map[string]func(r *rand.Rand, n int) []string{}
+
 func register(f *family) { families[f.name] = f }
 
 // which families serve which property
@@ -85,7 +88,19 @@ func main() {
 		w := bufio.NewWriterSize(os.Stdout, 1<<20)
 		defer w.Flush()
 		for i, name := range names {
+			sub := ""
+			if j := strings.IndexByte(name, ':'); j >= 0 {
+				name, sub = name[:j], name[j+1:]
+			}
 			f := families[name]
+			if f != nil && sub != "" {
+				g := subGens[name+":"+sub]
+				if g == nil {
+					fmt.Fprintln(os.Stderr, "unknown sub-generator", name, sub)
+					os.Exit(2)
+				}
+				f = &family{name: name, gen: g, exec: f.exec}
+			}
 			if f == nil {
 				fmt.Fprintln(os.Stderr, "unknown family", name)
 				os.Exit(2)
